@@ -74,17 +74,8 @@ func (fx *FnExec) Run() (obls []*Obligation, err error) {
 			}
 		}
 	}
-	// ghost variables
-	if fx.C != nil {
-		for _, g := range fx.W.Contracts.Ghosts {
-			n := fx.havoc("gh_"+g.Name, g.Sort)
-			if g.Init != "" {
-				fx.assumeGlobal("(= " + n + " " + g.Init + ")")
-			}
-			entry.gh[g.Name] = n
-			fx.entryGh[g.Name] = n
-		}
-	}
+	// ghost variables are declared lazily, on first use (ghostEntry), so that functions that never
+	// mention a ghost do not drag its sort and axioms into their queries
 	fx.bs[fn.Blocks[0]] = entry
 	if fx.onEntry != nil {
 		fx.onEntry(fx)
@@ -198,6 +189,9 @@ func (fx *FnExec) enterBlock(b *ssa.BasicBlock) *blockState {
 			v := ins[i].st.gh[k]
 			if v == "" && k == "$acnt" {
 				v = "0"
+			}
+			if v == "" {
+				v = fx.ghostEntry(k)
 			}
 			if term == "" {
 				term = v
@@ -545,7 +539,8 @@ func (fx *FnExec) enterLoop(b *ssa.BasicBlock, li *loopInfo, st *blockState) {
 	}
 	// ghosts modified in loop: havoc all ghosts conservatively when the loop contains calls
 	for _, g := range fx.W.Contracts.Ghosts {
-		if _, ok := st.gh[g.Name]; ok && fx.loopTouchesGhost(li, g.Name) {
+		if fx.loopTouchesGhost(li, g.Name) {
+			fx.ghostEntry(g.Name) // make sure old(g) names the entry value, not the loop value
 			st.gh[g.Name] = fx.havoc("gh_"+g.Name+"_l", g.Sort)
 		}
 	}
@@ -603,10 +598,20 @@ func (fx *FnExec) loopTouchesGhost(li *loopInfo, name string) bool {
 			continue
 		}
 		for _, in := range b.Instrs {
-			if c, ok := in.(ssa.CallInstruction); ok {
-				if fx.ghostTouch == nil || fx.ghostTouch(c) {
-					return true
-				}
+			c, ok := in.(ssa.CallInstruction)
+			if !ok {
+				continue
+			}
+			// a callee whose contract updates the ghost
+			if ct := fx.contractForCall(c.Common()); ct != nil && ct.GhostSet[name] != nil {
+				return true
+			}
+			// a family hook that updates its ghost at this call
+			if name == fx.hookGhost && fx.ghostTouch != nil && fx.ghostTouch(c) {
+				return true
+			}
+			if name == fx.hookGhost && fx.ghostTouch == nil && fx.onCall != nil {
+				return true
 			}
 		}
 	}
@@ -1611,6 +1616,21 @@ func (fx *FnExec) execReturn(x *ssa.Return) {
 		o := fx.oblige("fresh", "(> "+vals[0].S+" "+fx.allocBase()+")", x, "result is an object allocated (or taken from a pool) by this activation")
 		o.Props = fx.C.Props
 	}
+	if fx.C != nil && !fx.C.Assumed {
+		envg := &evalEnv{fx: fx, heap: fx.cur.heap, oldHeap: fx.heap0, rets: vals}
+		for _, gname := range sortedKeys(fx.C.GhostSet) {
+			if g := fx.W.Contracts.ghost(gname); g != nil {
+				gs := fx.C.GhostSet[gname]
+				t, err := fx.evalC(gs.ast, envg)
+				if err != nil {
+					fx.outside = append(fx.outside, fmt.Sprintf("ghostset %s: %v", gname, err))
+					continue
+				}
+				o := fx.oblige("post", eq(fx.cur.gh[gname], t.S), x, "ghost "+gname+" has the value the contract announces to callers: "+gs.Text)
+				o.Props = gs.Props
+			}
+		}
+	}
 	if fx.C != nil {
 		env := &evalEnv{fx: fx, heap: fx.cur.heap, oldHeap: fx.heap0, rets: vals}
 		for k, e := range fx.C.Ensures {
@@ -1715,4 +1735,35 @@ func sameMapExpr(a, b ssa.Value) bool {
 	fa, ok1 := ua.X.(*ssa.FieldAddr)
 	fb, ok2 := ub.X.(*ssa.FieldAddr)
 	return ok1 && ok2 && fa.X == fb.X && fa.Field == fb.Field
+}
+
+// ghostEntry returns the symbol holding the value of a contract ghost at function entry,
+// declaring it on first use.
+func (fx *FnExec) ghostEntry(name string) string {
+	if v, ok := fx.entryGh[name]; ok {
+		return v
+	}
+	g := fx.W.Contracts.ghost(name)
+	if g == nil {
+		return ""
+	}
+	n := fx.havoc("gh_"+name, g.Sort)
+	if g.Init != "" {
+		fx.assumeGlobal("(= " + n + " " + g.Init + ")")
+	}
+	fx.entryGh[name] = n
+	return n
+}
+
+// ghostVal returns the current value of a contract ghost.
+func (fx *FnExec) ghostVal(gh map[string]string, name string) (string, bool) {
+	if v, ok := gh[name]; ok {
+		return v, true
+	}
+	if fx.W.Contracts.ghost(name) == nil {
+		return "", false
+	}
+	v := fx.ghostEntry(name)
+	gh[name] = v
+	return v, true
 }
